@@ -137,6 +137,8 @@ func HarnessC01Step() {
 	}
 
 	entered := 0
+	peerLate := 0
+	lateAttach, peerLeftFirst := false, false
 	proxyErr := nondetBool()
 	var inProxyOK bool
 	var midLines []opshell.CLine
@@ -149,6 +151,29 @@ func HarnessC01Step() {
 		b.mu.Unlock()
 		midLines = drain(st.och)
 		midEvents = drainEvents(b.evCh)
+		// interference: while this stream is attached, the other actors may take their own atomic
+		// steps (each under the broker's mutex): the peer direction attaches with the same ID, the
+		// attached peer ends (its release step: clears the key and its cancel function and asks
+		// us to stop), or shutdown begins.
+		b.mu.Lock()
+		switch nondetChoice(4) {
+		case 1:
+			if *cancelOther == nil && b.key == id {
+				*cancelOther = func() { peerLate++ }
+				otherAttached = true
+				lateAttach = true
+			}
+		case 2:
+			if *cancelOther != nil {
+				*cancelOther = nil
+				b.key = ""
+				otherAttached = false
+				peerLeftFirst = true
+			}
+		case 3:
+			b.noMore = true
+		}
+		b.mu.Unlock()
 		if proxyErr {
 			return errors.New("transport failed")
 		}
@@ -215,7 +240,13 @@ func HarnessC01Step() {
 		}
 		verifAssert(e.Type == EventTypeConnected, "C04.admitted.only-connected-event")
 	}
-	if otherAttached {
+	peerAtAdmission := usAttached != usAttached // placeholder, set below
+	if isIn {
+		peerAtAdmission = st.preOut
+	} else {
+		peerAtAdmission = st.preIn
+	}
+	if peerAtAdmission {
 		verifAssert(ready == 1 && conn == 1, "C04.ready-exactly-at-full-attachment")
 	} else {
 		verifAssert(ready == 0 && conn == 0, "C04.no-ready-when-half-attached")
@@ -230,10 +261,17 @@ func HarnessC01Step() {
 	if !isIn {
 		peerCancels, ownCancels = st.inCanc, st.outCanc
 	}
+	peerCancels += peerLate
 	if otherAttached {
 		verifAssert(peerCancels == 1, "C04.release.peer-cancelled-once")
 	} else {
 		verifAssert(peerCancels == 0, "C04.release.no-peer")
+	}
+	if lateAttach {
+		verifReach("C04.release.peer-attached-meanwhile")
+	}
+	if peerLeftFirst {
+		verifReach("C04.release.peer-left-first")
 	}
 	verifAssert(ownCancels == 0, "C04.release.own-prestate-cancel-not-called")
 	lines := drain(st.och)
